@@ -14,11 +14,12 @@ pub fn child_main(args: &[String]) -> i32 {
     std::env::set_var("L4V_SUBRUN", "1");
     let mut rep = Report::new(&prop, &tier, seed, "exploration");
     match prop.as_str() {
-        "C09" => crate::c09::run(&mut rep),
-        "C10" => crate::c10::run(&mut rep),
-        "C11" => crate::c11::run(&mut rep),
         "C05BG" => crate::c05::run_background(&mut rep),
-        _ => return 2,
+        p => {
+            if !crate::run_prop(p, &mut rep) {
+                return 2;
+            }
+        }
     }
     let viol: Vec<Value> = rep.violations.iter().map(|v| json!({"signature": v.signature, "detail": v.detail})).collect();
     println!("RESULT {}", json!({"evaluations": rep.evaluations, "distinct": rep.distinct.len() as u64 + rep.distinct_enumerated,
@@ -51,7 +52,12 @@ pub fn merge(rep: &mut Report, bin_env: &str, prop: &str, prefix: &str) {
     };
     let v: Value = serde_json::from_str(&line[7..]).unwrap_or(Value::Null);
     rep.evaluations += v["evaluations"].as_u64().unwrap_or(0);
-    rep.distinct_enumerated += v["distinct"].as_u64().unwrap_or(0);
+    if prefix == "release" {
+        // same seed, same cases: they are further evaluations, not further distinct cases
+        rep.count("release_distinct_cases", v["distinct"].as_i64().unwrap_or(0));
+    } else {
+        rep.distinct_enumerated += v["distinct"].as_u64().unwrap_or(0);
+    }
     rep.count(&format!("{}_evaluations", prefix), v["evaluations"].as_i64().unwrap_or(0));
     for (k, c) in v["counters"].as_object().cloned().unwrap_or_default() {
         rep.count(&format!("{}_{}", prefix, k), c.as_i64().unwrap_or(0));
@@ -67,4 +73,7 @@ pub fn merge(rep: &mut Report, bin_env: &str, prop: &str, prefix: &str) {
         rep.inconclusive(&format!("{} part: {}", prefix, r.as_str().unwrap_or("")));
     }
     rep.set_extra(&format!("{}_part_profile", prefix), v["profile"].clone());
+    if prefix == "release" {
+        rep.assume("the whole workload is run twice with the same seed: by this (dev profile: debug assertions and overflow checks on) build and by a release build of harness and log4rs; the counters of the second run carry the prefix release_ and its cases are counted as further evaluations");
+    }
 }
